@@ -226,11 +226,17 @@ def project(addr, head, client_url, proxied):
 
 
 # ------------------------------------------------------------------ the client, wired as the Builder does
-class _Rec(object):
-    """Just enough of a URLRecord for WebProcessorSession._add_referrer."""
-    def __init__(self, parent_url, url_info):
-        self.parent_url = parent_url
-        self.url_info = url_info
+def _Rec(parent_url, url_info):
+    """The URLRecord the processor hands to WebProcessorSession._add_referrer: a REAL record (whatever attribute or
+    property of it the code reads is there)."""
+    from wpull.pipeline.item import URLRecord
+    rec = URLRecord()
+    rec.url = url_info.url
+    rec.parent_url = parent_url
+    rec.root_url = parent_url
+    rec.level = 1
+    rec.inline_level = None
+    return rec
 
 
 def build_client(net, maxred, proxy=False, user_agent='wpull-verif'):
